@@ -1,6 +1,7 @@
 import Driver.C06Mon
 import OidcModel.Generated.IssueC06
 import OidcModel.Generated.IssueC06Key
+import OidcModel.Generated.IssueC06O
 open Kv Drv
 
 /-
@@ -34,7 +35,34 @@ def recStorage (l : Line) (alg : String) : IssStorage :=
     GetPrivateClaimsFromScopes := fun _ _ sc => .ok [("priv", joinPlus sc)],
     SigningKey := .ok (recKey alg) }
 
-def modelLine (l : Line) : String × String :=
+/-- (round 4) the storage as a state-passing ORACLE (Model/IssueC06O.lean): it records like `recStorage`, and its signing key follows
+    the case's schedule - when the key was rotated INSIDE the token-issuing request, every `SigningKey` call of the request that
+    was answered before the rotation (`h.sigbefore` of them) returns the previous key, the later ones the new key.  The key's
+    "signature" ends in `#prev` / `#cur`: which of the two the regenerated function signed with. -/
+def tagKey (k : IssSigningKey) (tag : String) : IssSigningKey :=
+  { k with signID := fun c => (k.signID c).map (· ++ "#" ++ tag), signAT := fun c => (k.signAT c).map (· ++ "#" ++ tag) }
+
+def recOracle (l : Line) (sigsSoFar : Nat) : IssOStorage :=
+  let rotated := has l "k.prev"
+  let before := (int l "h.sigbefore").toNat
+  { log := List.replicate sigsSoFar "SigningKey",
+    is_TokenExchangeStorage := true,
+    is_CanSetUserinfoFromRequest := bool l "cap.uireq",
+    setUserinfoFromScopesAt := fun _ u sub _ sc => .ok { u with Subject := sub, Claims := u.Claims ++ [("ui", joinPlus sc)] },
+    setUserinfoFromRequestAt := fun _ u _ sc => .ok { u with Claims := u.Claims ++ [("uireq", joinPlus sc)] },
+    setUserinfoFromTokenExchangeRequestAt := fun _ u r => .ok { u with Subject := r.GetSubject, Claims := [("te", "")] },
+    getPrivateClaimsFromScopesAt := fun _ _ _ sc => .ok [("priv", joinPlus sc)],
+    signingKeyAt := fun log =>
+      if rotated && decide (log.count "SigningKey" < before) then .ok (tagKey (recKey (str l "k.prevalg")) "prev")
+      else .ok (tagKey (recKey (str l "k.alg")) "cur") }
+
+/-- splits `text#tag` -/
+def untag (s : String) : String × String :=
+  match s.splitOn "#" with
+  | [a, b] => (a, b)
+  | _ => (s, "cur")
+
+def modelLine (l : Line) : String × String × String × String :=
   let flow := str l "flow"
   let client : IssClient :=
     { GetID := str l "r.client", ClockSkew := int l "r.skew" * Go.second, IDTokenLifetime := int l "r.lifetime" * Go.second,
@@ -44,33 +72,35 @@ def modelLine (l : Line) : String × String :=
     { GetSubject := str l "r.sub", GetClientID := str l "r.client", GetScopes := list l "r.scopes",
       is_AuthRequest := flow == "code" || flow == "implicit" || flow == "implicit-idonly", GetNonce := str l "r.nonce",
       is_TokenExchangeRequest := flow == "exchange-id" }
-  let st := recStorage l (str l "alg")
-  let idPart :=
-    if bool l "o.idtoken" then
-      match GenC06.CreateIDToken 2000000000000000000 (str l "r.iss") request client.IDTokenLifetime (if bool l "r.withat" then "AT" else "")
-          (if bool l "r.code" then "CODE" else "") st client with
-      | .ok s => s
-      | .error e => "error:" ++ e
-    else "-"
-  let atPart :=
+  -- the JWT access token is made first (its SigningKey call is the first of the request), then the ID token
+  let (atPart, atTag) :=
     if bool l "o.jwtat" && flow != "jwt-bearer" then
-      match GenC06.CreateJWT 2000000000000000000 (str l "r.iss") request 2000000300000000000 "at" client st with
-      | .ok s => s
-      | .error e => "error:" ++ e
-    else "-"
+      match GenC06O.CreateJWT 2000000000000000000 (str l "r.iss") request 2000000300000000000 "at" client (recOracle l 0) with
+      | .ok s => untag s
+      | .error e => ("error:" ++ e, "cur")
+    else ("-", if has l "k.prev" && int l "h.sigbefore" ≥ 1 then "prev" else "cur")
+  let (idPart, idTag) :=
+    if bool l "o.idtoken" then
+      match GenC06O.CreateIDToken 2000000000000000000 (str l "r.iss") request client.IDTokenLifetime (if bool l "r.withat" then "AT" else "")
+          (if bool l "r.code" then "CODE" else "") (recOracle l (if bool l "o.jwtat" then 1 else 0)) client with
+      | .ok s => untag s
+      | .error e => ("error:" ++ e, "cur")
+    else ("-", "cur")
   let obsID :=
     if bool l "o.idtoken" then
       "ui=" ++ str l "j.ui" ++ ";uireq=" ++ str l "j.uireq" ++ ";at_hash=" ++ str l "o.athashsym" ++ ";c_hash=" ++ str l "o.chashsym"
     else "-"
   let obsAT := if bool l "o.jwtat" && flow != "jwt-bearer" then str l "j.priv" else "-"
-  (idPart ++ "|priv=" ++ atPart, obsID ++ "|priv=" ++ obsAT)
+  (idPart ++ "|priv=" ++ atPart, obsID ++ "|priv=" ++ obsAT, idTag, atTag)
 
 /-- the REGENERATED signing path (GenC06K.SignerFromKey, GenC06K.Sign) on the signing key the reference storage returns at this
     issuance: which key pair signs, and which `alg` / `kid` the header names - as `alg/kid/keyNo` -/
-def signerLine (l : Line) : String :=
-  let alg := str l "k.alg"
+def signerLine (l : Line) (tag : String := "cur") : String :=
+  let prev := tag == "prev"
+  let alg := str l (if prev then "k.prevalg" else "k.alg")
   let kty : KeyType := if alg == "EdDSA" then .okp else if Go.hasPrefix alg "ES" then .ec else .rsa
-  let key : IssKSigningKey := { SignatureAlgorithm := alg, Key := { keyNo := (int l "k.cur").toNat, kty := kty }, ID := str l "k.kid" }
+  let key : IssKSigningKey := { SignatureAlgorithm := alg, Key := { keyNo := (int l (if prev then "k.prev" else "k.cur")).toNat, kty := kty },
+                                ID := str l (if prev then "k.prevkid" else "k.kid") }
   match GenC06K.SignerFromKey 0 key with
   | .error e => "error:" ++ e
   | .ok signer =>
@@ -80,12 +110,12 @@ def signerLine (l : Line) : String :=
 
 def stepModel (l : Line) : String :=
   if str l "obs" != "tokens" then step l else
-  let (m, o) := modelLine l
-  -- every issued JWT is signed as the regenerated signing path signs with the CURRENT key (lines of older streams carry no key)
+  let (m, o, idTag, atTag) := modelLine l
+  -- every issued JWT is signed as the regenerated signing path signs with the key the regenerated issuance function FETCHED
+  -- (the current key; after a rotation inside the request the key of the moment of that token's one fetch)
   let (m, o) :=
     if has l "k.cur" then
-      let sg := signerLine l
-      (m ++ (if bool l "o.idtoken" then "|idsig=" ++ sg else "") ++ (if bool l "o.jwtat" then "|atsig=" ++ sg else ""),
+      (m ++ (if bool l "o.idtoken" then "|idsig=" ++ signerLine l idTag else "") ++ (if bool l "o.jwtat" then "|atsig=" ++ signerLine l atTag else ""),
        o ++ (if bool l "o.idtoken" then s!"|idsig={str l "o.idalg"}/{str l "o.idkid"}/{int l "o.idsigner"}" else "")
          ++ (if bool l "o.jwtat" then s!"|atsig={str l "o.atalg"}/{str l "o.atkid"}/{int l "o.atsigner"}" else ""))
     else (m, o)
